@@ -77,6 +77,33 @@ theorem visited_eq_preorder (m : Msg) :
   · rw [full, range_fst, contTree_pops, treeOf, postTree]
   · rw [range_snd, contTree_snd]; simp
 
+/-- **Exactly once, as addresses.**  In a well-formed tree every populated value has its own path
+(`pathsTree`, the step sequences from Root), and without control actions the paths reported by the
+pushes (`pushPaths` replays the stack) are exactly these paths, each once. -/
+theorem each_value_once (m : Msg) (hwf : wfMsg m = true) :
+    pushPaths [] (full m) = pathsTree [] (treeOf m) ∧ (pushPaths [] (full m)).Nodup := by
+  have h : pushPaths [] (full m) = pathsTree [] (treeOf m) := by
+    have := contTree_pushPaths [] (treeOf m) []
+    simpa [full, range_fst, pushPaths] using this
+  refine ⟨h, ?_⟩
+  rw [h]
+  exact pathsTree_nodup [] (treeOf m) (by simpa [treeOf, DistinctTree] using distinctMsg m hwf)
+
+/-- **At most once, every oracle.**  Whatever the callbacks answer, the paths reported by the pushes
+are a subsequence of the paths of the undisturbed traversal, hence (well-formed tree) pairwise
+different: no value is ever visited twice and none is invented. -/
+theorem never_twice (o : Oracle) (m : Msg) (hwf : wfMsg m = true) :
+    (pushPaths [] (range o m).1).Sublist (pushPaths [] (full m)) ∧
+    (pushPaths [] (range o m).1).Nodup := by
+  have hsub : (pushPaths [] (range o m).1).Sublist (pushPaths [] (full m)) := by
+    obtain ⟨w, hw, ht⟩ := events_prefix_walk o m
+    obtain ⟨l, hl, he⟩ := ht.pushPaths_sublist [Step.root m.ty] [Event.pop (.root m.ty) (.msg m)]
+    rw [(each_value_once m hwf).1, hw, treeOf]
+    simp only [pushPaths, pathsTree, List.nil_append]
+    rw [he]
+    simpa [pushPaths] using List.Sublist.cons_cons [Step.root m.ty] hl
+  exact ⟨hsub, hsub.nodup (each_value_once m hwf).2⟩
+
 /-- Every callback is made: two events per populated value (plus Root). -/
 theorem full_length (m : Msg) : (full m).length = 2 * (1 + (preMsg m).length) := by
   have h1 := (visited_eq_preorder m).1
@@ -242,6 +269,7 @@ def exMsg : Msg :=
     [16, 3]
 
 example : wfMsg exMsg = true := by decide
+example : (pushPaths [] (full exMsg)).length = 18 := by decide
 example : (full exMsg).length = 36 := by decide
 example : (preMsg exMsg).length = 17 := by decide
 /-- the Any's own fields are not among the visited values, its body is -/
